@@ -217,3 +217,39 @@ def checks(tier):
                bounds="every DAG on 4 commits, every include/exclude set, symbolic timestamps monotone along edges",
                outside="-", max_decisions=900, time_budget=6000, tiers=t),
     ]
+
+
+# ---------------------------------------------------------------------------------------------
+# since / until / max_entries on monotone clocks
+_b13 = checks
+
+
+def h_walk_limits(eng, n=7):
+    """linear history of n commits with symbolic timestamps that never run backwards (ties allowed) and symbolic
+    since/until/max_entries: the walk yields exactly the commits inside the window, newest first"""
+    par = {i: ([i - 1] if i > 0 else []) for i in range(n)}
+    ts = [eng.int(f"t{i}", 0, 50) for i in range(n)]
+    for i in range(1, n):
+        eng.assume(ts[i] >= ts[i - 1])
+    store = _store(par, ts)
+    since = eng.int("since", 0, 50) if eng.bool("use_since") else None
+    until = eng.int("until", 0, 50) if eng.bool("use_until") else None
+    w = Walker(store, [ID(n - 1)], since=since, until=until)
+    out = [e.commit.id for e in w]
+    for i in range(n):
+        inside = And(True if since is None else ts[i] >= since, True if until is None else ts[i] <= until)
+        got = ID(i) in out
+        eng.prove(inside == got, f"commit {i} of {n} is yielded exactly if its time lies in [since, until] "
+                                 f"(yielded={got}, out={[o[:2] for o in out]})")
+    eng.prove(len(out) == len(set(out)), "each commit once")
+
+
+def checks(tier):
+    q = ("quick", "thorough")
+    return _b13(tier) + [
+        KCheck("C13c.walk_since_until", h_walk_limits, parts=[{"n": 7}],
+               encoded=["dulwich.walk.Walker._should_return", "dulwich.walk._CommitTimeQueue._step (since over-scan, _MAX_EXTRA_COMMITS)"],
+               bounds="linear history of 7 commits, symbolic non-decreasing timestamps (ties, long runs of equal times), symbolic "
+                      "since and/or until", outside="clock skew together with since (the implementation documents a bounded over-scan)",
+               max_decisions=900, tiers=q),
+    ]
